@@ -559,7 +559,16 @@ func ruleT6(c *Ctx) *RuleResult {
 		}
 		for i, st := range firstStores {
 			key := fmt.Sprintf("%s|first-random-access-set#%d", fnn, i+1)
-			if len(raConds) > 0 && onlyIf(fn, st, raConds, true) {
+			okLatch := len(raConds) > 0 && onlyIf(fn, st, raConds, true)
+			if !okLatch && len(raConds) > 0 && len(firstConds) > 0 {
+				// `if !first && !ra { return }; if !first { …; first = true }`: the latch is tested twice. The store sits
+				// behind a test that saw it open; a path on which an earlier test saw it closed cannot get there (nothing
+				// stores the latch in between: its only stores are the ones judged here)
+				if onlyIf(fn, st, firstConds, false) && onlyIfAny(fn, st, append(wantAll(raConds, true), wantAll(firstConds, true)...)) {
+					okLatch = true
+				}
+			}
+			if okLatch {
 				r.ok(key, c.Pos(st.Pos()), fnn, "firstRandomAccessReceived is set only at a random-access unit", "guarded")
 			} else {
 				r.fail(key, c.Pos(st.Pos()), fnn, "firstRandomAccessReceived is set only at a random-access unit", "set on a path where randomAccess is false")
